@@ -597,33 +597,33 @@ func entry() uint64 {
 }
 `, v2))
 	// a labelled break out of two loops under a mutex
-	bnd("b-labelled-break", true, hdr+`func claim(mu *sync.Mutex, slots []uint64, id uint64, wg *sync.WaitGroup) {
-search:
-	for {
-		mu.Lock()
+	bnd("b-labelled-break", true, hdr+`func claim(mu *sync.Mutex, slots []uint64, misses *uint64, id uint64, wg *sync.WaitGroup) {
+	mu.Lock()
+outer:
+	for r := uint64(0); r < 2; r++ {
 		for i := uint64(0); i < uint64(len(slots)); i++ {
 			if slots[i] == 0 {
 				slots[i] = id
-				mu.Unlock()
-				break search
+				break outer
 			}
 		}
-		mu.Unlock()
-		break
+		*misses = *misses + 1
 	}
+	mu.Unlock()
 	wg.Done()
 }
 
 func entry() uint64 {
 	mu := new(sync.Mutex)
-	slots := make([]uint64, 3)
+	slots := make([]uint64, 5)
+	misses := new(uint64)
 	wg := new(sync.WaitGroup)
 	wg.Add(2)
 	go func() {
-		claim(mu, slots, 1, wg)
+		claim(mu, slots, misses, 1, wg)
 	}()
 	go func() {
-		claim(mu, slots, 2, wg)
+		claim(mu, slots, misses, 2, wg)
 	}()
 	wg.Wait()
 	var n uint64 = 0
@@ -633,8 +633,9 @@ func entry() uint64 {
 			n = n + 1
 		}
 	}
+	r := n*10 + *misses
 	mu.Unlock()
-	return n
+	return r
 }
 `)
 	// two waiters, one Signal each
